@@ -929,6 +929,15 @@ func (s *pstate) eval(v ssa.Value) *Term {
 	case *ssa.MakeInterface:
 		return s.term(x.X)
 	case *ssa.Convert:
+		// an integer conversion to a narrower type can change the value (and its sign): visible; every other conversion is
+		// transparent
+		if w := narrowing(x.X.Type(), x.Type()); w != "" {
+			t := s.term(x.X)
+			if c, ok := t.constInt(); ok && fitsIn(c, w) {
+				return t
+			}
+			return nodeL("narrow", w, t)
+		}
 		return s.term(x.X)
 	case *ssa.SliceToArrayPointer:
 		return s.term(x.X)
@@ -1031,6 +1040,60 @@ func (s *pstate) constCell(addr ssa.Value) ssa.Value {
 		return nil
 	}
 	return val
+}
+
+func intBits(t types.Type) (bits int, signed bool, ok bool) {
+	b, isB := types.Unalias(t).Underlying().(*types.Basic)
+	if !isB || b.Info()&types.IsInteger == 0 {
+		return 0, false, false
+	}
+	switch b.Kind() {
+	case types.Int8:
+		return 8, true, true
+	case types.Int16:
+		return 16, true, true
+	case types.Int32:
+		return 32, true, true
+	case types.Int64, types.Int:
+		return 64, true, true
+	case types.Uint8:
+		return 8, false, true
+	case types.Uint16:
+		return 16, false, true
+	case types.Uint32:
+		return 32, false, true
+	case types.Uint64, types.Uint, types.Uintptr:
+		return 64, false, true
+	}
+	return 0, false, false
+}
+
+// narrowing: converting from→to may lose high bits; returns the target type's name, "" otherwise.
+func narrowing(from, to types.Type) string {
+	fb, _, ok1 := intBits(from)
+	tb, _, ok2 := intBits(to)
+	if ok1 && ok2 && tb < fb {
+		return types.Unalias(to).Underlying().(*types.Basic).Name()
+	}
+	return ""
+}
+
+func fitsIn(v int64, typ string) bool {
+	switch typ {
+	case "int8":
+		return v >= -128 && v <= 127
+	case "int16":
+		return v >= -32768 && v <= 32767
+	case "int32":
+		return v >= -(1<<31) && v <= (1<<31)-1
+	case "uint8":
+		return v >= 0 && v <= 255
+	case "uint16":
+		return v >= 0 && v <= 65535
+	case "uint32":
+		return v >= 0 && v <= (1<<32)-1
+	}
+	return false
 }
 
 // allocOrdinal numbers the allocations of a function in block order, so that an allocation has one name on every path.
